@@ -197,4 +197,21 @@ PROPS = {
         "level_note": "Partial: the dual connector and the AVX2 path are decided by the differential oracle against the defining sum (all id pairs of every case), not by a theorem. Trusted: Coq kernel + vm_compute; arrays checks/costs modelled as one position->(check,cost) map.",
         "technique": "machine-checked proof in Coq (double-array invariant with xor cancellation) + checked model/code correspondence and specification oracle on every id pair",
     },
+    "C19": {
+        "theorems": ["c19_parse_write", "c19_malformed", "c19_tokenizer_output"],
+        "check_targets": ["Check/C19Check.vo"],
+        "case_type": "c19case",
+        "report_fn": "c19_report",
+        "harness": "C19",
+        "n": {"quick": 3000, "thorough": 100000},
+        "rule": "3 of 4 cases = generated corpus text: 0-4 sentences of 0-3 token lines over surfaces {a, b, multi-byte, space, U+3000, 'EOS', empty, 'x y', CR, quote} and features incl. trailing whitespace / interior CR / quoted cells, LF or CRLF, plus a malformed/edge stream (text after the last EOS, line without tab, two tabs, blank line, no final newline, a token whose surface is EOS, sentences of empty surfaces followed by a normal one, ' EOS', 'eos'); 1 of 4 = the MeCab-style output (as printed by tokenize/src/main.rs) of a generated dictionary on a generated sentence; observed: from_reader outcome and examples, Example::write of every example, re-parse; non-trivial: at least one example parsed",
+        "trusted_base": [
+            "modelled, not verified: BufRead::lines (LF split, one trailing CR dropped), str::split('\\t'), Sentence::set_sentence; the tokenize tool's printing loop is replicated in the harness (three write calls per token)",
+            "the premise of c19_tokenizer_output on FEATURES is a property of the dictionary (K4 in DESIGN.md: a feature containing a tab makes the output unparsable); generated features contain no tab",
+        ],
+        "assumptions": ["valid UTF-8 input"],
+        "level_text": "Coq theorems c19_parse_write (for every list of examples free of tab/LF, without trailing CR in features and with non-empty text, parse(write(exs)) = exs: lemmas about lines/split over concatenations), c19_malformed (a line without tab that is not EOS, or with two or more tabs, is an error) and c19_tokenizer_output (the tokenizer's printed lines parse to exactly the printed tokens, or to no example when the text is empty). Tied to the code on every run: real Corpus::from_reader / Example::write on generated texts vs the model (outcome, examples, written bytes), and an oracle on the implementation (errors only for malformed lines, kept sentences non-empty, write+re-parse identity, tokenizer output = tokens).",
+        "level_note": "Trusted: Coq kernel + vm_compute; hand model tied by differential testing; evaluate/split tools only reuse Corpus::from_reader.",
+        "technique": "machine-checked proof in Coq (round-trip law of the line format) + checked model/code correspondence",
+    },
 }
